@@ -28,8 +28,8 @@ CHECKS = {
  'C19': dict(
    engine='kani', category='other', design_ref='DESIGN.md §2 C19',
    technique='contract harnesses on the real AbiBuffer / RawStreamWriter / RawStreamReader operations (Kani/CBMC), all ABI-permitted codes enumerated per buffer length',
-   text='BOUNDED contract checking, not a proof: every obligation but one fixes the buffer length (0..=3 items, spare capacity <= 2) and is complete only for that length, so the level is "other" (bounded stand-in), as the brief requires. Per-operation contracts: AbiBuffer lowers each value once in order, advance(k) releases exactly the k transferred items once, into_vec/drop recover exactly the untransferred suffix once; a stream write/read reports exactly the host count for every permitted code whether it arrives at once, through the task, or from cancel; done-flag behaviour after peer drop; handles dropped once.',
-   note='BOUNDED in buffer length (<=3 items / spare capacity <=2) — these obligations are listed as bounded, not proved; only take_handle is unbounded. write_all/collect loops and the futures::Stream adapter are not covered. Trusted: mock StreamOps, mock host.'),
+   text='BOUNDED contract checking, not a proof: every obligation but one fixes the buffer length (0..=3 items, spare capacity <= 2) and is complete only for that length, so the level is "other" (bounded stand-in), as the brief requires. Per-operation contracts: AbiBuffer lowers each value once in order, advance(k) releases exactly the k transferred items once, into_vec/drop recover exactly the untransferred suffix once; a stream write/read reports exactly the host count for every permitted code whether it arrives at once, through the task, or from cancel; done-flag behaviour after peer drop; handles dropped once. Generated side (one payload probe world, Kani on the real Rust generator\'s output with a heap ledger): the StreamVtable<T> hooks for stream<string>, stream<record { u32, string }>, stream<u8>, stream<bool> - lower writes the canonical element and keeps exactly the value\'s buffer allocated, a payload whose lowering allocates has a dealloc_lists hook and that hook frees exactly those buffers once, lift hands an untransferred value back from its own buffer, canonical payloads have no hooks.',
+   note='BOUNDED in buffer length (<=3 items / spare capacity <=2) — these obligations are listed as bounded, not proved; only take_handle is unbounded. write_all/collect loops and the futures::Stream adapter are not covered. Trusted: mock StreamOps (in-crate obligations), mock host; the payload obligations fix the string length per obligation (0, 1, 2).'),
  'C24': dict(
    engine='kani', category='proof', design_ref='DESIGN.md §2 C24',
    technique='contract harnesses (Kani/CBMC) on cabi_realloc extracted verbatim each run, allocator replaced by GlobalAlloc-contract stubs with a ghost ledger; real Cleanup driven in place',
@@ -73,8 +73,8 @@ CHECKS['C07'] = dict(
 CHECKS['C22'] = dict(
    engine='kani', category='other', design_ref='DESIGN.md §9.7 C22',
    technique='contract harnesses on the real export executor (Kani/CBMC, in-crate): exactly one executor step (TaskState::callback, start_task, callback, drop, waitable_register/unregister) per harness from directly constructed pre-states, symbolic event codes',
-   text='BOUNDED contract checking, not a proof (level "other"): at most one registered waitable, scripted Rust work, one step per harness over a sampled set of abstract states. Per step: EXIT exactly when no Rust work and no registered waitable remain; WAIT on the task\'s own waitable set while something is pending and not woken; YIELD when woken during polling (after polling the set and delivering what it reports); an event is delivered to its callback exactly once, after the waitable has left every set, with the host\'s code, and the work is polled again; cancellation exits without polling; the state slot is empty while a callback runs, holds the same state afterwards unless EXIT, and the task with its destructors is released exactly once on exit or cancellation with the task installed; CallbackCode encoding for all set ids; register/unregister keep the task map and the host set in step.',
-   note='BOUNDED: <= 1 waitable, two-slot map model kept in a static under the model checker (BTreeMap trusted), one task per harness. block_on is covered for a ready future and for one wait (two loop iterations); a three-step history runs in the thorough tier. Not covered: spawned work (async-spawn), TaskCancelOnDrop, longer histories beyond the inductive reading of the single steps. Trusted: mock host.')
+   text='BOUNDED contract checking, not a proof (level "other"): at most one registered waitable, scripted Rust work, one step per harness over a sampled set of abstract states. Per step: EXIT exactly when no Rust work and no registered waitable remain; WAIT on the task\'s own waitable set while something is pending and not woken; YIELD when woken during polling (after polling the set and delivering what it reports); an event is delivered to its callback exactly once, after the waitable has left every set, with the host\'s code, and the work is polled again; cancellation exits without polling; the state slot is empty while a callback runs, holds the same state afterwards unless EXIT, and the task with its destructors is released exactly once on exit or cancellation with the task installed; CallbackCode encoding for all set ids; register/unregister keep the task map and the host set in step; a task handle taken and given back through the C-ABI vtable (clone / drop) is exactly one strong reference more and less, and the set is dropped once when everything is gone; block_on returns for a ready future, after one wait, and for a future that only yields without ever registering a waitable.',
+   note='BOUNDED: <= 1 waitable, two-slot map model kept in a static under the model checker (BTreeMap trusted), one task per harness. block_on is covered for a ready future, for one wait and for a yield-only future (two loop iterations each; the last one exposed a panic in the unchanged code, repaired as fix: 1781768); a three-step history runs in the thorough tier. Not covered: spawned work (async-spawn), TaskCancelOnDrop, longer histories beyond the inductive reading of the single steps. Trusted: mock host.')
 
 CHECKS['C05'] = dict(
    engine='kani', category='other', design_ref='DESIGN.md §9.9 C05/C06',
